@@ -332,15 +332,21 @@ def check_text(ctx, S, text):
                 wrong.add("spelling")
                 V("written-spelling-differs", f"score note {sid} written as {f['step']}{f['alter']}{f['octave']}, is "
                   f"{e['step']}{e['alter']}{e['octave']}", S.witness(note=e))
-            if f["dur"] != e["dur_q"] / 4:
+            whole_ = Fraction(e["dur_q"]) / 4
+            if f["dur"] != e["dur_q"] / 4 and (whole_.numerator > 1024 or whole_.denominator > 1024):
+                # (open known finding, see check_score: fractions finer than 1024 are replaced by a simple one)
+                wrong.add("duration")
+                V("score-duration-approximated:fraction-beyond-1024", f"score note {sid}: duration written {f['dur']} whole notes, is {whole_}",
+                  S.witness(note=e, written=str(f["dur"])))
+            elif f["dur"] != e["dur_q"] / 4:
                 wrong.add("duration")
                 V(f"written-duration-differs:{'tied' if e['tied'] else 'plain'}", f"score note {sid}: duration written {f['dur']} "
                   f"whole notes, is {e['dur_q'] / 4}", S.witness(note=e, written=str(f["dur"])))
-            if abs(Fraction(f["onb"]) - e["onset_beat"]) > BEAT_TOL:
+            if abs(Fraction(str(f["onb"])) - e["onset_beat"]) > BEAT_TOL:
                 wrong.add("onset")
                 V(f"written-onset-in-beats-differs:{ctxq}", f"score note {sid}: OnsetInBeats written {f['onb']}, is {e['onset_beat']}",
                   S.witness(note=e, written=f["onb"]))
-            if abs(Fraction(f["offb"]) - e["offset_beat"]) > BEAT_TOL:
+            if abs(Fraction(str(f["offb"])) - e["offset_beat"]) > BEAT_TOL:
                 wrong.add("offset")
                 V(f"written-offset-in-beats-differs:{ctxq}", f"score note {sid}: OffsetInBeats written {f['offb']}, is {e['offset_beat']}",
                   S.witness(note=e, written=f["offb"]))
@@ -601,7 +607,14 @@ def check_score(ctx, S, wrong, lp, text=None):
             V(f"score-onset-differs:{timing_ctx}", f"score note {sid} starts {rel_a(e['t'])} quarters after the first note "
               f"{e0['id']} in the saved score, {rel_b(g['t'])} quarters after it in the loaded one",
               S.witness(note=e, first_note=e0["id"], loaded_divs=B["q"]))
-        if "duration" not in wrong and g["dur_q"] != e["dur_q"]:
+        whole = Fraction(e["dur_q"]) / 4
+        if "duration" not in wrong and g["dur_q"] != e["dur_q"] and (whole.numerator > 1024 or whole.denominator > 1024):
+            # the format's duration field keeps numerators and denominators up to 1024 and replaces anything finer by the
+            # nearest simple fraction (FractionalSymbolicDuration.bound_integers): open known finding
+            structure_ok = False
+            V("score-duration-approximated:fraction-beyond-1024", f"score note {sid}: duration {e['dur_q']} quarters saved "
+              f"({whole} of a whole note), {g['dur_q']} loaded", S.witness(note=e, loaded_divs=B["q"]))
+        elif "duration" not in wrong and g["dur_q"] != e["dur_q"]:
             structure_ok = False
             V(f"score-duration-differs:{'tied' if e['tied'] else ('grace' if e['grace'] else 'plain')}:{meter_context(A, e['t'])}",
               f"score note {sid}: duration {e['dur_q']} quarters saved, {g['dur_q']} loaded", S.witness(note=e, loaded_divs=B["q"]))
